@@ -192,9 +192,13 @@ impl Guard {
 }
 
 pub fn main_with(h: Harness) {
-    std::panic::set_hook(Box::new(|_| {}));
     let args: Vec<String> = std::env::args().collect();
     let cmd = args.get(1).map(|s| s.as_str()).unwrap_or("");
+    if cmd != "gen" {
+        // panics of the implementation under test are an observable (PANIC), not noise on stderr;
+        // a panicking generator, however, must be loud and fail the run
+        std::panic::set_hook(Box::new(|_| {}));
+    }
     let stdout = std::io::stdout();
     let mut out = std::io::BufWriter::new(stdout.lock());
     match cmd {
